@@ -396,6 +396,7 @@ def run(ctx):
     ctx.run_rule("R10.4", "block/outcome pairing: testcase_index incremented exactly once per test block; outcomes[testcase_index] single reader [E-STATE]", r10_4, floor=3)
     ctx.run_rule("R10.5", "fence and `$`/`>`/`[code]` writer-reader tables (R9.1, R9.4): the rewritten block parses to the same commands [E-TABLE]", r10_5, floor=15)
     ctx.run_rule("R10.9", "update command wiring: parser and update generator are built from the same whole markdown_languages list [E-FLOW]", r10_9, floor=3)
+    ctx.run_rule("R10.10", "writer/reader fence agreement: the parser closes a block on a column-0 prefix test against the opening fence - what the writer's max_backtick_size measures (shared with C06 R6.9) [E-TABLE]", c06.r6_9, floor=3)
     ctx.run_rule("R10.8", "sibling agreement: parser and update generator agree on which scrut blocks carry a test case (non-empty code lines) [E-TABLE/E-PATH]", r10_8, floor=2)
     ctx.run_rule("R10.7", "the text a passing expectation is re-emitted from is the line as written: parse -> make -> original_string without trimming [E-FLOW]", r10_7, floor=3)
     ctx.run_rule("R10.6", "consumed-line conservation in MarkdownIterator::next: each read line is stored once or consumed as a delimiter on every path [E-STATE by dataflow]", r10_6, floor=4)
